@@ -1,0 +1,31 @@
+//go:build verif
+
+package main
+
+// Test hook for /verif (compiled only under the `verif` build tag): when
+// VERIF_WORDLIST_URL names a local server, the tool's HTTP fetches are sent
+// there instead of to the upstream repository. Nothing else changes.
+
+import (
+	"net/http"
+	neturl "net/url"
+	"os"
+)
+
+type verifTransport struct{ base *neturl.URL }
+
+func (t verifTransport) RoundTrip(req *http.Request) (*http.Response, error) {
+	r2 := req.Clone(req.Context())
+	r2.URL.Scheme = t.base.Scheme
+	r2.URL.Host = t.base.Host
+	r2.Host = t.base.Host
+	return http.DefaultTransport.RoundTrip(r2)
+}
+
+func init() {
+	if v := os.Getenv("VERIF_WORDLIST_URL"); v != "" {
+		if u, err := neturl.Parse(v); err == nil {
+			http.DefaultClient = &http.Client{Transport: verifTransport{u}}
+		}
+	}
+}
